@@ -26,7 +26,7 @@
                                                           request_length; with the connection set-up:
                                                           xrcmd_meets_spec, xrcmd_request_stderr (the port announced is
                                                           the port that is listening), xrcmd_request_plain (no stderr
-                                                          channel), xrcmd_unconnected_silent
+                                                          channel), xrcmd_unconnected_silent, xrcmd_backoff_bounded
   exec: %h %u %n %% replaced, everything else kept      formatArg_spec(_partial), escapes_replaced, unknown_preserved,
                                                           no_percent_id, argv_length_preserved, exec_argv_exact,
                                                           exec_argv_interactive; witnesses d10_*, d11_witness
@@ -712,6 +712,12 @@ theorem xrcmd_unconnected_silent (w : Xrcmd.World) (errCh : Bool) (luser ruser c
     (Xrcmd.xrcmd w errCh luser ruser cmd).ok = false ∧
     Xrcmd.writesOf (Xrcmd.xrcmd w errCh luser ruser cmd).evs = [] :=
   Xrcmd.xrcmd_unconnected w errCh luser ruser cmd h
+
+/-- the retries on ECONNREFUSED are bounded: pauses of 1, 2, 4, 8, 16 seconds at most, 31 seconds in all, in
+    every world (the connect time-out of C07 interrupts them earlier) -/
+theorem xrcmd_backoff_bounded (w : Xrcmd.World) (errCh : Bool) (luser ruser cmd : List Char) :
+    Xrcmd.Spec.sleepSum (Xrcmd.xrcmd w errCh luser ruser cmd).evs ≤ 31 :=
+  Xrcmd.Spec.xrcmd_sleeps_at_most_31 w errCh luser ruser cmd
 
 /-- non-vacuity, and the situation of a busy port: 1023 answers EADDRINUSE, 1022 connects, 1021 is taken by
     somebody else, so the stderr socket is 1020 -- and 1020 is what the request says -/
